@@ -110,7 +110,7 @@ class SessRun(Run):
                 run.conn_of.pop(c, None)
                 run.nrel += 1
                 r = run.nrel
-                before = set(self._release_tasks)
+                before = set(getattr(self, '_release_tasks', ()))
                 run.rel_of[id(connection)] = r
                 run.rel_x[r] = x
                 ConnectionPool.no_wait_release(self, connection)
@@ -314,8 +314,10 @@ def scenarios(quick, rng):
                                              ['reply', 2], ['go'], ['start', 2, 1, 'ok'], ['go']], uses=2)
                 r.execute()
                 out.append(r)
-    for _ in range(60 if quick else 1500):
-        out.append(random_run(rng, rng.randrange(1, 4), rng.randrange(1, 3), rng.randrange(1, 3), rng.randrange(1, 4)))
+    cfgs = [(3, 1, 1), (3, 2, 1), (3, 1, 2), (2, 1, 1)]
+    for i in range(40 if quick else 400):
+        N, H, M = cfgs[i % len(cfgs)]
+        out.append(random_run(rng, N, H, M, rng.randrange(1, 4)))
     return out
 
 
